@@ -3187,7 +3187,7 @@ class FreezeCurrentStateResponse(
         return cls(data_identifier, control_states)
 
     def matches(self, request: UDSRequest) -> bool:
-        return super().matches(request) and isinstance(request, FreezeCurrentStateResponse)
+        return super().matches(request) and isinstance(request, FreezeCurrentStateRequest)
 
 
 class FreezeCurrentStateRequest(
